@@ -1,0 +1,98 @@
+//go:build verif
+
+package waddrmgr
+
+import "fmt"
+
+// VerifSecretBuffer describes one in-memory clear-text buffer of the address
+// manager: whether it currently holds material (non-nil and not all zero).
+type VerifSecretBuffer struct {
+	// Name identifies the buffer, e.g. "masterKeyPriv", "cryptoKeyPriv",
+	// "hashedPrivPassphrase", "acctKeyPriv:<scope>:<account>",
+	// "privKeyCT:<scope>:<address>", "scriptClearText:<scope>:<address>",
+	// "privKeyCache:<scope>".
+	Name string
+
+	// Live is true when the buffer holds non-zero bytes (for the derived
+	// key cache: when it holds at least one entry).
+	Live bool
+
+	// Secret is false for clear-text script buffers of scripts that are
+	// not marked secret (witness scripts imported as public).
+	Secret bool
+}
+
+func verifLive(b []byte) bool {
+	for _, x := range b {
+		if x != 0 {
+			return true
+		}
+	}
+	return false
+}
+
+// VerifSecretBuffers reports, for every clear-text key buffer the manager
+// and its scoped managers hold, whether it is currently live. It exists only
+// under the "verif" build tag: the fields are unexported and wiping them has
+// no effect that is visible through the API.
+func (m *Manager) VerifSecretBuffers() []VerifSecretBuffer {
+	m.mtx.RLock()
+	defer m.mtx.RUnlock()
+
+	var out []VerifSecretBuffer
+	add := func(name string, live, secret bool) {
+		out = append(out, VerifSecretBuffer{Name: name, Live: live, Secret: secret})
+	}
+
+	if m.masterKeyPriv != nil && m.masterKeyPriv.Key != nil {
+		add("masterKeyPriv", verifLive(m.masterKeyPriv.Key[:]), true)
+	} else {
+		add("masterKeyPriv", false, true)
+	}
+	if m.cryptoKeyPriv != nil {
+		add("cryptoKeyPriv", verifLive(m.cryptoKeyPriv.Bytes()), true)
+	}
+	if m.cryptoKeyScript != nil {
+		add("cryptoKeyScript", verifLive(m.cryptoKeyScript.Bytes()), true)
+	}
+	add("hashedPrivPassphrase", verifLive(m.hashedPrivPassphrase[:]), true)
+
+	for scope, sm := range m.scopedManagers {
+		sm.mtx.RLock()
+		for acct, info := range sm.acctInfo {
+			add(fmt.Sprintf("acctKeyPriv:%v:%d", scope, acct),
+				info.acctKeyPriv != nil, true)
+		}
+		for _, ma := range sm.addrs {
+			switch a := ma.(type) {
+			case *managedAddress:
+				a.privKeyMutex.Lock()
+				add(fmt.Sprintf("privKeyCT:%v:%v", scope, a.address),
+					verifLive(a.privKeyCT), true)
+				a.privKeyMutex.Unlock()
+			case *scriptAddress:
+				a.scriptMutex.Lock()
+				add(fmt.Sprintf("scriptClearText:%v:%v", scope, a.address),
+					verifLive(a.scriptClearText), true)
+				a.scriptMutex.Unlock()
+			case *witnessScriptAddress:
+				a.scriptMutex.Lock()
+				add(fmt.Sprintf("scriptClearText:%v:%v", scope, a.address),
+					verifLive(a.scriptClearText), a.isSecretScript)
+				a.scriptMutex.Unlock()
+			case *taprootScriptAddress:
+				a.scriptMutex.Lock()
+				add(fmt.Sprintf("scriptClearText:%v:%v", scope, a.address),
+					verifLive(a.scriptClearText), a.isSecretScript)
+				a.scriptMutex.Unlock()
+			}
+		}
+		n := 0
+		if sm.privKeyCache != nil {
+			n = sm.privKeyCache.Len()
+		}
+		add(fmt.Sprintf("privKeyCache:%v", scope), n > 0, true)
+		sm.mtx.RUnlock()
+	}
+	return out
+}
